@@ -1440,8 +1440,8 @@ def rule_view_sem(ctx: RuleContext, p: Program, rid: str, max_raw: int = 4) -> N
                     me, raw = mk(kinds)
                     me.f['_from_raw_type'] = by_val
                     mine = [x for x in raw if x.cls == 'Mine']
-                    for x, ch in zip(mine, pattern):
-                        x.f['val'] = ch
+                    for k_, x in enumerate(mine):
+                        x.f['val'] = pattern[k_ % len(pattern)]
                     vals = [x.f['val'] for x in mine]
                     n += 1
                     if meth == 'remove':
